@@ -2,389 +2,291 @@
 from __future__ import annotations
 
 import ast
+from urllib.parse import urldefrag, urljoin, urlsplit
 
-from sa.astx import NotConst, call_attr, call_name, const_eval, lin_expect, lincmp, module_consts, src, walk_local
+from sa.astx import module_consts
 from sa.selftest import Mutant, Silent
-from sa.source import class_assigns
 from sa.source import AnalysisError
-from sa.props._lib_f import (InterpError, ModelRaised, call_repo, assign_sites, call_sites, from_here, local_assignments, named_calls, none_guard, param_names, truth_guard)
+from sa.props._lib_f import InterpError, MDeferred, MExc, MFailure, ModelRaised, NullLogger, World
 
 PROPERTY = "C27"
 CL = "web/client.py"
-Q = "twisted.web.client.RedirectAgent."
-TECHNIQUE = "def-use pairing of continuation arguments + CFG dominance + constant tables"
+HH = "web/http_headers.py"
+AB = "web/_abnf.py"
+Q = "twisted.web.client."
+TECHNIQUE = "finite-history interpretation of RedirectAgent against a redirect oracle"
 EXPLANATION = (
-    "Decides: (a) paired arguments in RedirectAgent._handleRedirect: the Location is resolved against requestURI (which defaults to uri only when None), "
-    "the URI handed to the next hop's _handleResponse as requestURI is the very expression requested from the inner agent, uri/method/count are "
-    "carried through by position at every hand-over (request -> _handleResponse -> _handleRedirect -> _handleResponse) (F27, fixed); (b) the limit test "
-    "redirectCount >= limit raises before the request, the count passed on is redirectCount + 1 starting from 0, a missing Location raises, __init__ is interpreted for limits 0/1/2/20 (the configured value must be stored unchanged; no truthiness test on limit/count); (c) on the "
-    "not-same-origin edge (and only the tests `headers`, `not sameOrigin`, the limit and the missing-Location test may dominate the comparison and the stripping) the headers sent are rebuilt by the comprehension that drops every name in _sensitiveHeaderNames, sameOrigin is the conjunction "
-    "of scheme, host and port equality between the ORIGINAL uri and the target, the default set contains Authorization/Cookie/Proxy-Authorization in "
-    "canonical capitalisation (evaluated with the Headers canonicaliser's rule) and configured names are canonicalised; (d) status tables of both agents: "
-    "method-preserving codes need GET/HEAD else raise, see-other codes pass the literal GET, and 307/308 are never in a method-switching table "
-    "(known finding: BrowserLikeRedirectAgent lists 308 there). Not decided: URL resolution arithmetic of urljoin."
+    "RedirectAgent / BrowserLikeRedirectAgent are instantiated as model objects whose methods are the repository's own functions (interpreted over the AST; the inner "
+    "agent, Deferred, Headers, URI parsing are synchronous checker models, urljoin is the stdlib's; nothing of twisted is imported or run) and driven through redirect "
+    "histories; every request issued to the inner agent is compared with an oracle: (a) each target is the Location resolved against the URI of the request that "
+    "received the redirect, for absolute, relative, dot-segment and scheme-relative Locations over chains of up to 4 hops (F27, fixed); (b) with limit L exactly L "
+    "redirects are followed, then ResponseFailed, for L in 0,1,2,3 and the default, and a redirect without Location fails; (c) Authorization / Cookie / "
+    "Proxy-Authorization and configured names (in any capitalisation) are never sent to an origin (scheme, host, port) other than the original request's, are kept "
+    "on same-origin hops, and other headers always survive - including scheme-relative and port-changing targets; (d) per status code and method of both agents: "
+    "followed / refused, method kept for 307/308 and switched to GET exactly for 303 (and 301/302 of the browser-like agent); known finding F27b: the browser-like "
+    "agent switches POST to GET on 308. Not decided: URL resolution arithmetic of urljoin itself."
 )
-ASSUMPTIONS = ["Deferred.addCallback(f, *a) calls f(result, *a)", "Headers.getAllRawHeaders yields canonically capitalised names (C24 checks the canonicaliser is applied on storage)"]
+ASSUMPTIONS = ["Deferred.addCallback(f, *a) calls f(result, *a); the inner agent answers each request once", "urllib.parse.urljoin/urldefrag are the functions twisted.web.client imports"]
+
+CODES = {"MOVED_PERMANENTLY": 301, "FOUND": 302, "SEE_OTHER": 303, "TEMPORARY_REDIRECT": 307, "PERMANENT_REDIRECT": 308, "OK": 200}
 
 
-def _bind(call_args, fdef, skip):
-    """positional args -> parameter names of fdef after skipping the first ``skip`` parameters"""
-    ps = param_names(fdef)[skip:]
-    return {p: a for p, a in zip(ps, call_args)}
+class _NS:
+    _sa_model = True
+
+    def __init__(self, **kw):
+        self.__dict__.update(kw)
+
+
+class _Headers:
+    """model of Headers: names are kept in the canonical capitalisation the real class stores (computed by interpreting its own _NameEncoder.encode)"""
+    _sa_model = True
+    canon = staticmethod(lambda n: n)
+
+    def __init__(self, raw=None):
+        self.raw = {}
+        for k, v in (raw or {}).items():
+            self.raw[_Headers.canon(k)] = list(v)
+
+    def getRawHeaders(self, name, default=None):
+        return list(self.raw.get(_Headers.canon(name), [])) or default
+
+    def hasHeader(self, name):
+        return _Headers.canon(name) in self.raw
+
+    def getAllRawHeaders(self):
+        return list(self.raw.items())
+
+    def copy(self):
+        return _Headers(self.raw)
+
+
+class _Response:
+    _sa_model = True
+    _sa_settable = True
+
+    def __init__(self, code, location=None):
+        self.code = code
+        self.headers = _Headers({b"location": [location]} if location is not None else {})
+        self.previousResponse = None
+
+    def setPreviousResponse(self, r):
+        self.previousResponse = r
+
+
+class _Inner:
+    """the wrapped agent: records every request and answers from a script"""
+    _sa_model = True
+
+    def __init__(self, script):
+        self.script = list(script)
+        self.calls = []
+
+    def request(self, method, uri, headers=None, bodyProducer=None):
+        self.calls.append((method, uri, dict(headers.getAllRawHeaders()) if headers is not None else None, bodyProducer))
+        d = MDeferred()
+        d.callback(self.script.pop(0) if self.script else _Response(200))
+        return d
+
+
+def _uri_from_bytes(uri, defaultPort=None):
+    p = urlsplit(uri)
+    port = p.port if p.port is not None else (defaultPort if defaultPort is not None else (443 if p.scheme == b"https" else 80))
+    return _NS(scheme=p.scheme, netloc=p.netloc, host=p.hostname.encode() if isinstance(p.hostname, str) else p.hostname, port=port, path=p.path)
+
+
+def _origin(uri):
+    u = _uri_from_bytes(uri)
+    return (u.scheme, u.host, u.port)
+
+
+def _world(ctx):
+    mod = ctx.mod(CL)
+    for fn in ("RedirectAgent.__init__", "RedirectAgent.request", "RedirectAgent._handleRedirect", "RedirectAgent._handleResponse", "RedirectAgent._resolveLocation", "_urljoin"):
+        ctx.func(CL, fn)
+    abnf = World(ctx.mod(AB))
+    hw = World(ctx.mod(HH), externals={"_istoken": abnf.resolve("_istoken")})
+    enc = hw.new("_NameEncoder")
+    _Headers.canon = staticmethod(lambda n: enc.encode(n))
+    http = _NS(**CODES)
+    error = _NS(InfiniteRedirection=lambda *a, **k: MExc("InfiniteRedirection", a), PageRedirect=lambda *a, **k: MExc("PageRedirect", a),
+                RedirectWithNoLocation=lambda *a, **k: MExc("RedirectWithNoLocation", a))
+    env = {"http": http, "error": error, "_canonicalHeaderName": _Headers.canon}
+    ext = {"ResponseFailed": lambda *a, **k: MExc("ResponseFailed", a), "Headers": lambda raw=None: _Headers(raw), "URI.fromBytes": _uri_from_bytes,
+           "urljoin": urljoin, "urldefrag": lambda u: tuple(urldefrag(u)), "implementer": lambda *a: (lambda c: c), "Logger": lambda *a, **k: NullLogger()}
+    return World(mod, externals=ext, env=env)
+
+
+def _run(w, cls, script, method=b"GET", uri=b"http://a.example/x/y", headers=None, **agent_kw):
+    inner = _Inner(script)
+    agent = w.new(cls, inner, **agent_kw)
+    box = []
+    try:
+        d = agent.request(method, uri, headers)
+    except ModelRaised as e:
+        return inner, ("raised", e.name)
+    if not isinstance(d, MDeferred):
+        return inner, ("not-a-deferred", d)
+    d.addBoth(lambda r: (box.append(r), r)[1])
+    if not box:
+        return inner, ("pending", None)
+    r = box[0]
+    if isinstance(r, MFailure):
+        inner_exc = r.value.args[0][0].value.name if r.value.name == "ResponseFailed" and r.value.args and r.value.args[0] and isinstance(r.value.args[0][0], MFailure) else None
+        return inner, ("fail", r.value.name, inner_exc)
+    return inner, ("ok", r)
 
 
 def check(ctx):
-    mod = ctx.mod(CL)
-    hr = ctx.func(CL, "RedirectAgent._handleRedirect")
-    hp = ctx.func(CL, "RedirectAgent._handleResponse")
-    rq = ctx.func(CL, "RedirectAgent.request")
-    g = ctx.cfg(hr)
-    q = Q + "_handleRedirect"
-    ps = param_names(hr)
-    ctx.need(ps[:6] == ["self", "response", "method", "uri", "headers", "redirectCount"] and len(ps) >= 7, "_handleRedirect(self, response, method, uri, headers, redirectCount, requestURI)")
-    RU = ps[6]
-    reqs = named_calls(g, "self._agent.request")
-    conts = [(n, c) for n, c in call_sites(g, lambda c: call_attr(c) == "addCallback" and c.args and src(c.args[0]) == "self._handleResponse")]
-    gp = ctx.cfg(hp)
-    qp = Q + "_handleResponse"
-    hsites = named_calls(gp, "self._handleRedirect")
-
-    # ---- (a) pairing ------------------------------------------------------------------------------
-    with ctx.section("pairing"):
-        pass
-        reqs = named_calls(g, "self._agent.request")
-        ctx.check(len(reqs) == 1, "pairing/next-hop", q, f"{len(reqs)} inner-agent request sites in _handleRedirect (one expected)")
-        conts = [(n, c) for n, c in call_sites(g, lambda c: call_attr(c) == "addCallback" and c.args and src(c.args[0]) == "self._handleResponse")]
-        ctx.check(len(conts) == 1, "pairing/next-hop", q + " | continuation", f"{len(conts)} continuations into _handleResponse (one expected)")
-        for (rn, rc), (cn, cc) in zip(reqs, conts):
-            b = _bind(cc.args[1:], hp, 2)
-            target = rc.args[1] if len(rc.args) > 1 else None
-            ok = RU in b and target is not None and src(b[RU]) == src(target) and isinstance(target, ast.Name)
-            ctx.check(ok, "pairing/next-hop", ctx.construct(q, cc),
-                      f"the URI remembered as the next hop's requestURI ({src(b.get(RU)) if b.get(RU) is not None else 'nothing'}) is not the URI just requested ({src(target)}): "
-                      "a relative Location on the following hop is resolved against the wrong request (a -> http://b/p/q -> 'r' is fetched from a)")
-            ctx.check(src(b.get("uri")) == "uri", "pairing/original-uri", ctx.construct(q, cc) + " | uri", "the original request URI is not carried on unchanged (same-origin test and errors refer to it)")
-            ctx.check(src(b.get("method")) == src(rc.args[0]), "pairing/method", ctx.construct(q, cc) + " | method", "the method remembered for the next hop is not the method just used")
-            w = g.must_precede([rn], [cn])
-            ctx.check(w is None, "pairing/next-hop", ctx.construct(q, cc) + " | after request", "the continuation is attached to something other than the request just made", witness=g.describe(w))
-            # the requested URI is the resolved location
-            if isinstance(target, ast.Name):
-                defs = local_assignments(hr, target.id)
-                ok = len(defs) == 1 and isinstance(defs[0].value, ast.Call) and call_name(defs[0].value) == "self._resolveLocation"
-                ctx.check(ok, "pairing/resolve-base", ctx.construct(q, rc), "the requested URI is not the Location resolved by _resolveLocation")
-                if ok:
-                    a = defs[0].value.args
-                    ctx.check(len(a) == 2 and src(a[0]) == RU, "pairing/resolve-base", ctx.construct(q, defs[0]),
-                              f"the Location is resolved against `{src(a[0]) if a else '?'}`, not against the URI of the request that received the redirect ({RU})")
-                    lh = [s for s in walk_local(hr) if isinstance(s, ast.Assign) and isinstance(s.value, ast.Call) and call_attr(s.value) == "getRawHeaders" and
-                          s.value.args and _const(s.value.args[0]) in (b"location", b"Location")]
-                    ok2 = len(lh) == 1 and len(a) == 2 and src(a[1]) == f"{src(lh[0].targets[0])}[0]"
-                    ctx.check(ok2, "pairing/resolve-base", ctx.construct(q, defs[0]) + " | location value", "the value resolved is not the first Location header of the response")
-        # requestURI defaults to uri only when None
-        for st in local_assignments(hr, RU):
-            ok = all(none_guard(g, i, RU, True) for i in g.ids_of(st)) and src(st.value) == "uri"
-            ctx.check(ok, "pairing/resolve-base", ctx.construct(q, st), f"{RU} is overwritten other than by the `is None -> uri` default (first hop)")
-        d = hr.args.defaults
-        ctx.check(len(d) >= 1 and isinstance(d[-1], ast.Constant) and d[-1].value is None, "pairing/resolve-base", q + " | default", f"{RU} does not default to None")
-        # _resolveLocation(requestURI, location) -> _urljoin(requestURI, location)
-        rl = ctx.func(CL, "RedirectAgent._resolveLocation")
-        rets = [s for s in walk_local(rl) if isinstance(s, ast.Return)]
-        ok = len(rets) == 1 and isinstance(rets[0].value, ast.Call) and call_name(rets[0].value) == "_urljoin" and [src(a) for a in rets[0].value.args] == param_names(rl)[1:3]
-        ctx.check(ok, "pairing/resolve-base", Q + "_resolveLocation", "_resolveLocation does not join (base, location) in that order")
-
-        # hand-overs in _handleResponse and request()
-        gp = ctx.cfg(hp)
-        qp = Q + "_handleResponse"
-        hsites = named_calls(gp, "self._handleRedirect")
-        ctx.check(len(hsites) == 2, "pairing/hand-over", qp, f"{len(hsites)} _handleRedirect call sites (two expected)")
-        for n, c in hsites:
-            b = _bind(c.args, hr, 1)
-            same = all(src(b.get(p)) == p for p in ("response", "uri", "headers", "redirectCount", RU))
-            ctx.check(same, "pairing/hand-over", ctx.construct(qp, c), "response/uri/headers/redirectCount/requestURI are not handed to _handleRedirect unchanged and in order")
-        rcalls = [c for c in walk_local(rq) if isinstance(c, ast.Call) and call_attr(c) == "addCallback" and c.args and src(c.args[0]) == "self._handleResponse"]
-        ctx.check(len(rcalls) == 1, "pairing/hand-over", Q + "request", "request() does not continue into _handleResponse exactly once")
-        first = [c for c in walk_local(rq) if isinstance(c, ast.Call) and call_name(c) == "self._agent.request"]
-        for c in rcalls:
-            b = _bind(c.args[1:], hp, 2)
-            ok = len(first) == 1 and src(b.get("method")) == src(first[0].args[0]) and src(b.get("uri")) == src(first[0].args[1]) and src(b.get("headers")) == src(first[0].args[2]) and RU not in b
-            ctx.check(ok, "pairing/hand-over", ctx.construct(Q + "request", c), "the first hop does not remember the method/uri/headers it requested")
-            ctx.check(_const(b.get("redirectCount")) == 0, "limit/count", ctx.construct(Q + "request", c) + " | count", "the redirect count does not start at 0")
-
-    # ---- (b) limit / missing location --------------------------------------------------------------
-    with ctx.section("limit"):
-        pass
-        raises = g.ids(lambda x: x.kind == "stmt" and isinstance(x.ast, ast.Raise))
-        want = lin_expect({"redirectCount": 1, "self._redirectLimit": -1}, 0)
-        lim = [r for r in raises if any(lincmp(g.node(t).ast, negate=(lab == "F")) == want for t, lab in g.edge_guards(r))]
-        ctx.check(len(lim) == 1, "limit/test", q, "InfiniteRedirection is not raised exactly when redirectCount >= the redirect limit (at most `limit` redirects are followed)")
-        for rn, rc in reqs:
-            notyet = lin_expect({"redirectCount": -1, "self._redirectLimit": 1}, 1)
-            ok = any(lincmp(g.node(t).ast, negate=(lab == "F")) == notyet for t, lab in g.edge_guards(rn))
-            ctx.check(ok, "limit/test", ctx.construct(q, rc), "the next request is made without redirectCount < limit having been established")
-        for cn, cc in conts:
-            b = _bind(cc.args[1:], hp, 2)
-            lc = lincmp(ast.Compare(left=b["redirectCount"], ops=[ast.GtE()], comparators=[ast.Constant(value=0)])) if "redirectCount" in b else None
-            ctx.check(lc == lin_expect({"redirectCount": 1}, -1), "limit/count", ctx.construct(q, cc) + " | count", "the count passed to the next hop is not redirectCount + 1")
-        noloc = [r for r in raises if any(src(g.node(t).ast) == "locationHeaders" and lab == "F" for t, lab in g.edge_guards(r))
-                 or any(lincmp(g.node(t).ast, negate=(lab == "F")) == lin_expect({"len(locationHeaders)": -1}, 0) for t, lab in g.edge_guards(r))]
-        ctx.check(len(noloc) == 1 and "RedirectWithNoLocation" in " ".join(src(s) for s in walk_local(hr) if isinstance(s, ast.Assign)), "limit/no-location", q,
-                  "a redirect without a Location header is not refused")
-        for r in raises:
-            ctx.check("ResponseFailed" in src(g.node(r).ast), "limit/no-location", ctx.construct(q, g.node(r).ast), "the refusal is not reported as ResponseFailed")
-
-    # ---- (b') the configured limit reaches the comparison unchanged, 0 included -------------------------------------------
-    with ctx.section("limit-configured"):
-        init = ctx.func(CL, "RedirectAgent.__init__")
-        qi = Q + "__init__"
-        consts = {}
-        for k_, v_ in class_assigns(ctx.cls(CL, "RedirectAgent")).items():
-            c_ = _const(v_)
-            if c_ is not None:
-                consts[k_] = c_
-
-        class _SelfModel:
-            _sa_model = True
-        for k_, v_ in consts.items():
-            setattr(_SelfModel, k_, v_)
-        bad = []
-        try:
-            for L in (0, 1, 2, 20):
-                st_ = {}
-                call_repo(init, ["<agent>"], {"redirectLimit": L}, selfobj=_SelfModel(), funcs={"_canonicalHeaderName": lambda x: x},
-                          env={"_defaultSensitiveHeaders": frozenset()}, state=st_)
-                got = st_.get("self._redirectLimit", "<not stored>")
-                if got != L or isinstance(got, bool):
-                    bad.append((L, got))
-        except (InterpError, ModelRaised) as e:
-            raise AnalysisError(f"C27: RedirectAgent.__init__ is not interpretable: {e}")
-        ctx.check(not bad, "limit/configured-value", qi, f"RedirectAgent(agent, redirectLimit={bad[0][0]}) stores _redirectLimit = {bad[0][1]!r}: the configured limit does not reach the "
-                  "comparison unchanged (limit 0 = 'follow no redirect' silently becomes the default)" if bad else "")
-        # truthiness on numeric values whose domain includes 0
-        NUMERIC = {"redirectLimit", "redirectCount", "self._redirectLimit"}
-        for fn_, qn_ in ((init, qi), (hr, q), (hp, qp)):
-            for node in walk_local(fn_):
-                ops = []
-                if isinstance(node, ast.BoolOp):
-                    ops = node.values
-                elif isinstance(node, ast.UnaryOp) and isinstance(node.op, ast.Not):
-                    ops = [node.operand]
-                elif isinstance(node, (ast.If, ast.While, ast.IfExp)):
-                    ops = [node.test]
-                for o_ in ops:
-                    if src(o_) in NUMERIC:
-                        ctx.violation("limit/numeric-truthiness", ctx.construct(qn_, node if not isinstance(node, (ast.If, ast.While)) else node.test),
-                                      f"`{src(o_)}` is tested for truthiness / or-defaulted although 0 is a meaningful value of it")
-        ctx.ok("limit/numeric-truthiness", Q + "<limit and count are compared, never truth-tested>")
-
-    # ---- (c) credentials -------------------------------------------------------------------------------
-    with ctx.section("credentials"):
-        pass
-        so = [s for s in walk_local(hr) if isinstance(s, ast.Assign) and isinstance(s.targets[0], ast.Name) and isinstance(s.value, ast.BoolOp)]
-        ctx.check(len(so) == 1, "credentials/same-origin", q, "the same-origin decision (one conjunction) was not found")
-        strip_ok = False
-        for s in so:
-            flag = s.targets[0].id
-            v = s.value
-            attrs, objs = set(), set()
-            ok = isinstance(v.op, ast.And)
-            for e in v.values:
-                if isinstance(e, ast.Compare) and len(e.ops) == 1 and isinstance(e.ops[0], ast.Eq) and isinstance(e.left, ast.Attribute) and isinstance(e.comparators[0], ast.Attribute) \
-                        and e.left.attr == e.comparators[0].attr:
-                    attrs.add(e.left.attr)
-                    objs.add(frozenset([src(e.left.value), src(e.comparators[0].value)]))
-                else:
-                    ok = False
-            ok = ok and attrs == {"scheme", "host", "port"} and len(objs) == 1
-            ctx.check(ok, "credentials/same-origin", ctx.construct(q, s), f"same origin is not the conjunction of scheme, host and port equality (compares {sorted(attrs)})")
-            if ok:
-                a, b_ = sorted(next(iter(objs)))
-                defs = {}
-                for nm in (a, b_):
-                    ds = [x for x in local_assignments(hr, nm)]
-                    if len(ds) == 1 and isinstance(ds[0].value, ast.Call) and call_name(ds[0].value) == "URI.fromBytes" and len(ds[0].value.args) == 1:
-                        defs[nm] = src(ds[0].value.args[0])
-                tgt = src(reqs[0][1].args[1]) if reqs else "location"
-                ok2 = sorted(defs.values()) == sorted(["uri", tgt])
-                if not ok2 and sorted(defs.values()) == sorted([RU, tgt]) and reqs and conts:
-                    # comparing with the previous hop is equivalent iff the (possibly stripped) headers just sent are the ones carried on:
-                    # then unstripped headers only ever travel along a chain of pairwise same-origin hops starting at the original
-                    carried = _bind(conts[0][1].args[1:], hp, 2).get("headers")
-                    ok2 = carried is not None and len(reqs[0][1].args) > 2 and src(carried) == src(reqs[0][1].args[2])
-                ctx.check(ok2, "credentials/same-origin", ctx.construct(q, s) + " | operands",
-                          f"the origins compared are those of {sorted(defs.values())}: sensitive headers are not confined to the ORIGINAL request's origin "
-                          f"(compare uri with {tgt}, or the previous hop while carrying the stripped headers on)")
-            # stripping on the not-same-origin edge
-            for rn, rc in reqs:
-                hname = src(rc.args[2]) if len(rc.args) > 2 else None
-                strips = []
-                for n, st in assign_sites(g, lambda x: src(x) == hname):
-                    val = st.value if isinstance(st, ast.Assign) else None
-                    comp = next((x for x in ast.walk(val) if isinstance(x, (ast.DictComp, ast.ListComp, ast.GeneratorExp))), None) if val is not None else None
-                    if comp is None or len(comp.generators) != 1 or call_attr(comp.generators[0].iter) != "getAllRawHeaders":
-                        continue
-                    gen = comp.generators[0]
-                    name_var = src(gen.target.elts[0]) if isinstance(gen.target, ast.Tuple) else None
-                    filt = [i for i in gen.ifs if isinstance(i, ast.Compare) and len(i.ops) == 1 and isinstance(i.ops[0], ast.NotIn) and src(i.left) == name_var and
-                            src(i.comparators[0]) == "self._sensitiveHeaderNames"]
-                    ctx.check(len(filt) == 1 and len(gen.ifs) == 1, "credentials/filter", ctx.construct(q, st),
-                              "the rebuilt header set is not exactly `every header whose name is not in self._sensitiveHeaderNames`")
-                    if filt:
-                        strips.append(n)
-                ctx.check(bool(strips), "credentials/stripped-cross-origin", q + " | strip site", "no statement rebuilds the headers without the sensitive names")
-                tests = [t for t in g.ids(lambda x: x.kind == "test") if src(g.node(t).ast) == flag]
-                ctx.check(len(tests) == 1, "credentials/stripped-cross-origin", q + " | test", "the same-origin flag is not tested exactly once")
-                for t in tests:
-                    cross = [d for d, l in g.succ[t] if l == "F"]
-                    w = g.must_pass(cross, strips, to=[rn], exc=False, strict=False) if cross and cross[0] not in strips else None
-                    ctx.check(w is None and bool(cross), "credentials/stripped-cross-origin", ctx.construct(q, rc),
-                              "on the cross-origin edge the request can be sent with the unfiltered headers (Authorization/Cookie leak to another origin)", witness=g.describe(w))
-                    strip_ok = True
-                # the only way around the same-origin test is `headers` being falsy / None
-                def _hdr_absent_edge(a_, lab):
-                    e = g.node(a_).ast
-                    if g.node(a_).kind != "test":
-                        return False
-                    if src(e) in (hname, "headers"):
-                        return lab == "F"
-                    for nm in (hname, "headers"):
-                        p_ = _cmp_none(e, nm)
-                        if p_ is not None:
-                            return (lab == "T") == p_
-                    return False
-                w = g.path([g.entry], [rn], avoid=tests, edge_ok=lambda a_, b2, l: l != "exc" and not _hdr_absent_edge(a_, l))
-                ctx.check(w is None, "credentials/stripped-cross-origin", ctx.construct(q, rc) + " | bypass",
-                          "a redirect that carries headers can reach the next request without the same-origin decision (e.g. a shortcut for 'relative' Locations: "
-                          "`//other.example/x` changes the host without containing '://'): sensitive headers go to a foreign origin", witness=g.describe(w))
-                # exact guard set: only 'headers present', 'not same origin', the limit test and the missing-Location test may decide whether the
-                # comparison and the stripping run
-                lh = [x for x in walk_local(hr) if isinstance(x, ast.Assign) and isinstance(x.value, ast.Call) and call_attr(x.value) == "getRawHeaders" and
-                      x.value.args and _const(x.value.args[0]) in (b"location", b"Location")]
-                lhvar = src(lh[0].targets[0]) if len(lh) == 1 else "locationHeaders"
-                limit_forms = (lin_expect({"redirectCount": 1, "self._redirectLimit": -1}, 0), lin_expect({"redirectCount": -1, "self._redirectLimit": 1}, 1))
-
-                def _allowed(e):
-                    if src(e) in (hname, "headers", flag):
-                        return True
-                    if any(_cmp_none(e, nm) is not None for nm in (hname, "headers", RU)):
-                        return True
-                    if lincmp(e) in limit_forms or lincmp(e, negate=True) in limit_forms:
-                        return True
-                    reads = {x.id for x in ast.walk(e) if isinstance(x, ast.Name)}
-                    if lhvar in reads and reads <= {lhvar, "len"} and not any(isinstance(x, ast.Subscript) for x in ast.walk(e)):
-                        return True     # "is there a Location header at all"
-                    return False
-                cmp_sites = [i for x in so for i in g.ids_of(x)] + [i for x in walk_local(hr) if isinstance(x, ast.Assign) and isinstance(x.value, ast.Call) and
-                                                                 call_name(x.value) == "URI.fromBytes" for i in g.ids_of(x)]
-                for site in sorted(set(strips) | set(cmp_sites)):
-                    extra = [src(g.node(t).ast) for t, lab in g.edge_guards(site) if not _allowed(g.node(t).ast)]
-                    ctx.check(not extra, "credentials/exact-guards", ctx.construct(q, g.node(site).ast),
-                              f"whether the origin comparison / header stripping runs also depends on {extra}: it must run for EVERY redirect that carries headers, "
-                              "judged on the resolved location only (a scheme-relative Location `//b.example/x` has no '://' yet leaves the origin)")
-        # default set and canonicalisation
-        dflt = mod.module_assign("_defaultSensitiveHeaders")
-        try:
-            names = set(const_eval(dflt)) if dflt is not None else None
-        except NotConst:
-            names = None
-        ctx.need(names is not None, "_defaultSensitiveHeaders constant")
-        need = {b"Authorization", b"Cookie", b"Proxy-Authorization"}
-        ctx.check(need <= names, "credentials/default-names", "twisted.web.client._defaultSensitiveHeaders", f"missing from the default sensitive set: {sorted(need - names)}")
-        hh = ctx.mod("web/http_headers.py")
-        cm = class_assigns(ctx.cls("web/http_headers.py", "_NameEncoder")).get("_caseMappings")
-        try:
-            case = const_eval(cm) if cm is not None else {}
-        except NotConst:
-            case = {}
-
-        def canon(nm):
-            r = b"-".join(w.capitalize() for w in nm.split(b"-"))
-            return case.get(r, r)
-        bad = sorted(n for n in names if canon(n) != n)
-        ctx.check(not bad, "credentials/default-names", "twisted.web.client._defaultSensitiveHeaders | canonical form",
-                  f"{bad} are not in the canonical capitalisation Headers uses for stored names: the `not in` filter never matches them")
-        ca = mod.module_assign("_canonicalHeaderName")
-        ctx.check(ca is not None and src(ca) == "_nameEncoder.encode", "credentials/configured-names", "twisted.web.client._canonicalHeaderName", "_canonicalHeaderName is not Headers' own name canonicaliser")
-        init = ctx.func(CL, "RedirectAgent.__init__")
-        st = [s for s in walk_local(init) if isinstance(s, ast.Assign) and src(s.targets[0]) == "self._sensitiveHeaderNames"]
-        ok = False
-        if len(st) == 1 and isinstance(st[0].value, ast.Name):
-            loc = st[0].value.id
-            ds = local_assignments(init, loc)
-            built = len(ds) == 1 and isinstance(ds[0].value, (ast.SetComp, ast.ListComp)) and isinstance(ds[0].value.elt, ast.Call) and \
-                call_name(ds[0].value.elt) == "_canonicalHeaderName" and src(ds[0].value.generators[0].iter) == param_names(init)[3]
-            upd = any(isinstance(c, ast.Call) and call_name(c) in (f"{loc}.update",) and [src(a) for a in c.args] == ["_defaultSensitiveHeaders"] for c in walk_local(init))
-            ok = built and upd
-        ctx.check(ok, "credentials/configured-names", Q + "__init__", "configured sensitive names are not canonicalised like stored header names and united with the defaults")
-
-    # ---- (d) tables and method rule -----------------------------------------------------------------------
-    with ctx.section("tables"):
-        pass
-        env = module_consts(ctx.mod("web/_responses.py"))
-        httpenv = {"http." + k: v for k, v in env.items()}
-        expected = {"RedirectAgent": ({301, 302, 307, 308}, {303}), "BrowserLikeRedirectAgent": ({307}, {301, 302, 303})}
-        for cname, (keep, switch_doc) in expected.items():
-            ca = class_assigns(ctx.cls(CL, cname))
-            tabs = {}
-            for t in ("_redirectResponses", "_seeOtherResponses"):
-                v = ca.get(t)
-                try:
-                    tabs[t] = {_subst_http(e, env) for e in v.elts} if isinstance(v, (ast.List, ast.Tuple, ast.Set)) else None
-                except NotConst:
-                    tabs[t] = None
-                ctx.need(tabs[t] is not None, f"{cname}.{t} constant table")
-            qq = f"twisted.web.client.{cname}."
-            ctx.check(not (tabs["_redirectResponses"] & tabs["_seeOtherResponses"]), "tables/disjoint", qq + "<tables>", "a status code is in both tables")
-            for code in (307, 308):
-                ctx.check(code not in tabs["_seeOtherResponses"], "tables/method-preserved-307-308", qq + f"_seeOtherResponses | {code}",
-                          f"{code} is handled as see-other: the method is switched to GET although {code} must preserve it (RFC 9110 15.4.8/15.4.9)")
-            for code in (301, 302, 303, 307, 308):
-                ctx.check(code in tabs["_redirectResponses"] | tabs["_seeOtherResponses"], "tables/complete", qq + f"<tables> | {code}", f"redirect status {code} is not followed")
-            extra = tabs["_seeOtherResponses"] - switch_doc - {307, 308}
-            ctx.check(not extra, "tables/documented-switch", qq + "_seeOtherResponses", f"{sorted(extra)} switch the method to GET although the class does not document it")
-            ctx.check(303 in tabs["_seeOtherResponses"], "tables/documented-switch", qq + "_seeOtherResponses | 303", "303 See Other does not switch to GET")
-        # method rule in _handleResponse
-        for n, c in hsites:
-            b = _bind(c.args, hr, 1)
-            m = b.get("method")
-            in_keep = any(src(gp.node(t).ast) == "response.code in self._redirectResponses" and lab == "T" for t, lab in gp.edge_guards(n))
-            in_switch = any(src(gp.node(t).ast) == "response.code in self._seeOtherResponses" and lab == "T" for t, lab in gp.edge_guards(n))
-            if in_keep:
-                ok = src(m) == "method" and any(isinstance(gp.node(t).ast, ast.Compare) and isinstance(gp.node(t).ast.ops[0], (ast.In, ast.NotIn)) and src(gp.node(t).ast.left) == "method" and
-                                                (isinstance(gp.node(t).ast.ops[0], ast.In) == (lab == "T")) and _const(gp.node(t).ast.comparators[0]) is not None and
-                                                set(_const(gp.node(t).ast.comparators[0])) == {b"GET", b"HEAD"} for t, lab in gp.edge_guards(n))
-                ctx.check(ok, "method/preserved", ctx.construct(qp, c), "a method-preserving redirect is followed with a changed method or for a method other than GET/HEAD")
-            elif in_switch:
-                ctx.check(_const(m) == b"GET", "method/see-other-get", ctx.construct(qp, c), "a see-other redirect is not followed with GET")
-            else:
-                ctx.violation("method/preserved", ctx.construct(qp, c), "a redirect is followed outside the two status tables")
-        rets = gp.ids(lambda x: x.kind == "stmt" and isinstance(x.ast, ast.Return) and src(x.ast.value) == "response")
-        ok = len(rets) == 1 and all(any(src(gp.node(t).ast) == f"response.code in self.{tb}" and lab == "F" for t, lab in gp.edge_guards(rets[0])) for tb in ("_redirectResponses", "_seeOtherResponses"))
-        ctx.check(ok, "method/preserved", qp + " | non-redirect", "a response is returned to the caller although its status is in a redirect table (or the reverse)")
+    for name, fn in (("resolution", _resolution), ("limit", _limit), ("credentials", _credentials), ("methods", _methods)):
+        with ctx.section(name):
+            try:
+                fn(ctx)
+            except InterpError as e:
+                raise AnalysisError(f"C27/{name}: the code uses a construct the evaluator cannot interpret: {e}")
 
 
-def _cmp_none(e, name):
-    """test is `name is None` / `name is not None` (or ==/!=): True when test-true means None, False when it means not-None, else None"""
-    if isinstance(e, ast.Compare) and len(e.ops) == 1 and {src(e.left), src(e.comparators[0])} == {name, "None"}:
-        if isinstance(e.ops[0], (ast.Is, ast.Eq)):
-            return True
-        if isinstance(e.ops[0], (ast.IsNot, ast.NotEq)):
-            return False
-    return None
+# ---- (a) resolution ---------------------------------------------------------------------------------------------------------
+LOCATIONS = [b"http://b.example/p/q", b"r", b"../s", b"/abs", b"//c.example/z", b"https://a.example/t", b"?k=v", b"http://a.example:8080/u", b"./v/", b"w#frag"]
 
 
-def _const(node):
-    if node is None:
-        return None
-    try:
-        return const_eval(node)
-    except NotConst:
-        return None
+def _resolution(ctx):
+    w = _world(ctx)
+    q = Q + "RedirectAgent._handleRedirect"
+    bad = []
+    n = 0
+    chains = [[a] for a in LOCATIONS] + [[a, b] for a in LOCATIONS[:5] for b in LOCATIONS[:7]] + [[b"http://b.example/p/q", b"r", b"../s", b"/abs"], [b"r", b"r", b"r"], [b"//c.example/z", b"k", b"/"]]
+    for chain in chains:
+        n += 1
+        start = b"http://a.example/x/y"
+        inner, out = _run(w, "RedirectAgent", [_Response((302, 303, 307, 301)[i % 4], loc) for i, loc in enumerate(chain)] + [_Response(200)], uri=start)
+        want, cur = [start], start
+        for loc in chain:
+            base, frag = urldefrag(cur)
+            joined, jfrag = urldefrag(urljoin(base, loc))
+            cur = urljoin(joined, b"#" + (jfrag or frag))
+            want.append(cur)
+        got = [c[1] for c in inner.calls]
+        if got != want or out[0] != "ok":
+            bad.append((chain, got, want, out))
+    msg = ""
+    if bad:
+        chain, got, want, out = bad[0]
+        k = next((i for i, (a_, b_) in enumerate(zip(got, want)) if a_ != b_), min(len(got), len(want)))
+        msg = (f"redirect chain {[c.decode() for c in chain]} from http://a.example/x/y: request #{k + 1} goes to "
+               f"{got[k].decode() if k < len(got) else 'nothing'} instead of {want[k].decode() if k < len(want) else 'nothing'} (outcome {out[:2]}): a Location is not resolved against the URI "
+               f"of the request that received the redirect; {len(bad)} of {n} chains wrong")
+    ctx.check(not bad, "pairing/next-hop", q, msg, detail=f"{n} redirect chains")
+    inner, out = _run(w, "RedirectAgent", [_Response(302, b"/n"), _Response(200)])
+    ok = out[0] == "ok" and getattr(out[1], "previousResponse", None) is not None and out[1].previousResponse.code == 302
+    ctx.check(ok, "pairing/previous-response", q + " | previousResponse", "the final response does not link to the redirect response it came from")
 
 
-def _subst_http(e, env):
-    if isinstance(e, ast.Attribute) and isinstance(e.value, ast.Name) and e.value.id == "http" and e.attr in env:
-        return env[e.attr]
-    return const_eval(e, env)
+# ---- (b) limit --------------------------------------------------------------------------------------------------------------------
+def _limit(ctx):
+    w = _world(ctx)
+    q = Q + "RedirectAgent"
+    for L in (0, 1, 2, None):
+        kw = {} if L is None else {"redirectLimit": L}
+        eff = 20 if L is None else L
+        inner, out = _run(w, "RedirectAgent", [_Response(302, b"/n%d" % i) for i in range(eff + 3)], **kw)
+        followed = len(inner.calls) - 1
+        ok = followed == eff and out[0] == "fail" and out[1] == "ResponseFailed" and out[2] == "InfiniteRedirection"
+        ctx.check(ok, "limit/follows-at-most", q + f" | redirectLimit={'default' if L is None else L}",
+                  f"with redirectLimit={'default (20)' if L is None else L} and an endless chain {followed} redirects are followed, outcome {out[:3]} "
+                  f"(exactly {eff} then ResponseFailed(InfiniteRedirection) expected)")
+        inner, out = _run(w, "RedirectAgent", [_Response(302, b"/n%d" % i) for i in range(eff)] + [_Response(200)], **kw)
+        ctx.check(out[0] == "ok" and len(inner.calls) == eff + 1, "limit/follows-at-most", q + f" | redirectLimit={'default' if L is None else L}, chain of exactly that length",
+                  f"a chain of exactly {eff} redirects is not followed to its end: {len(inner.calls) - 1} followed, outcome {out[:3]}")
+    inner, out = _run(w, "RedirectAgent", [_Response(302, None)])
+    ctx.check(out[0] == "fail" and out[1] == "ResponseFailed" and out[2] == "RedirectWithNoLocation" and len(inner.calls) == 1, "limit/no-location", q + " | redirect without Location",
+              f"a redirect without a Location header gives {out[:3]} after {len(inner.calls)} requests")
+
+
+# ---- (c) credentials ----------------------------------------------------------------------------------------------------------------
+SENSITIVE = {b"Authorization": [b"Basic s3cret"], b"Cookie": [b"sid=1"], b"Proxy-Authorization": [b"p"], b"X-Custom-Secret": [b"c"]}
+PLAIN = {b"Accept": [b"*/*"], b"X-Trace": [b"t1", b"t2"]}
+
+
+def _credentials(ctx):
+    w = _world(ctx)
+    q = Q + "RedirectAgent._handleRedirect"
+    start = b"http://a.example/x/y"
+    o0 = _origin(start)
+    hops = [b"/same", b"http://a.example/also-same", b"http://a.example:80/same-port", b"http://b.example/other", b"//b.example/scheme-relative", b"//a.example:8080/port-change",
+            b"https://a.example/scheme-change", b"http://a.example:8080/p", b"http://A.EXAMPLE/case"]
+    chains = [[h] for h in hops] + [[a, b] for a in hops[:4] for b in hops[:6]] + [[b"/same", b"/same2", b"//b.example/x"], [b"http://b.example/o", b"http://a.example/back", b"/again"]]
+    bad = []
+    n = 0
+    for configured, some in (((b"x-custom-secret",), chains), ((b"X-CUSTOM-SECRET",), chains[:6])):
+        for chain in some:
+            n += 1
+            hdrs = _Headers({**SENSITIVE, **PLAIN})
+            inner, out = _run(w, "RedirectAgent", [_Response(302, loc) for loc in chain] + [_Response(200)], uri=start, headers=hdrs, sensitiveHeaderNames=configured)
+            all_same = True
+            for i, (m_, u_, sent, _bp) in enumerate(inner.calls):
+                same = _origin(u_) == o0
+                all_same = all_same and same
+                sent = sent or {}
+                leaked = sorted(k for k in SENSITIVE if _Headers.canon(k) in sent)
+                if not same and leaked:
+                    bad.append((chain, i, u_, f"sends {[k.decode() for k in leaked]} to the foreign origin"))
+                elif all_same and len(leaked) != len(SENSITIVE):
+                    bad.append((chain, i, u_, f"drops {[k.decode() for k in SENSITIVE if _Headers.canon(k) not in sent]} although every hop so far stayed on the original origin"))
+                elif any(sent.get(_Headers.canon(k)) != v for k, v in PLAIN.items()):
+                    bad.append((chain, i, u_, f"loses or changes ordinary headers: {sent}"))
+            if out[0] != "ok" or len(inner.calls) != len(chain) + 1:
+                bad.append((chain, len(inner.calls), b"-", f"chain not followed: {out[:3]}"))
+    msg = ""
+    if bad:
+        chain, i, u_, why = bad[0]
+        msg = (f"request with Authorization/Cookie/Proxy-Authorization + configured X-Custom-Secret to http://a.example/x/y redirected via {[c.decode() for c in chain]}: request #{i + 1} "
+               f"({u_.decode()}) {why}; {len(bad)} problems in {n} histories")
+    ctx.check(not bad, "credentials/confined-to-origin", q, msg, detail=f"{n} histories")
+    inner, out = _run(w, "RedirectAgent", [_Response(302, b"http://b.example/o"), _Response(200)], uri=start, headers=None)
+    ctx.check(out[0] == "ok" and len(inner.calls) == 2, "credentials/confined-to-origin", q + " | no headers", f"a request without headers is not redirected: {out[:3]}")
+
+
+# ---- (d) status codes and methods -----------------------------------------------------------------------------------------------------
+def _expected(agent, code, method):
+    """(followed?, method of the follow-up) per the classes' documentation and RFC 9110 15.4"""
+    if code == 303:
+        return True, b"GET"
+    if code in (307, 308):
+        return (True, method) if method in (b"GET", b"HEAD") or agent == "BrowserLikeRedirectAgent" and False else ((False, None) if method not in (b"GET", b"HEAD") else (True, method))
+    if agent == "BrowserLikeRedirectAgent":
+        return True, b"GET"
+    return (True, method) if method in (b"GET", b"HEAD") else (False, None)
+
+
+def _methods(ctx):
+    w = _world(ctx)
+    for agent in ("RedirectAgent", "BrowserLikeRedirectAgent"):
+        ctx.cls(CL, agent)
+        for code in (301, 302, 303, 307, 308):
+            for method in (b"GET", b"HEAD", b"POST"):
+                inner, out = _run(w, agent, [_Response(code, b"/next"), _Response(200)], method=method)
+                follow, m2 = _expected(agent, code, method)
+                got_follow = len(inner.calls) == 2
+                got_m = inner.calls[1][0] if got_follow else None
+                q = Q + agent
+                if code in (307, 308) and got_follow and got_m != method:
+                    ctx.violation("tables/method-preserved-307-308", Q + f"{agent}._seeOtherResponses | {code}",
+                                  f"{agent}: {method.decode()} answered with {code} is followed as {got_m.decode()}: the method is switched although {code} must preserve it (RFC 9110 15.4.8/15.4.9)")
+                    continue
+                if code in (307, 308) and method == b"POST" and agent == "BrowserLikeRedirectAgent" and not got_follow:
+                    ctx.ok("tables/method-preserved-307-308", Q + f"{agent}._seeOtherResponses | {code}", "not followed: method trivially preserved")
+                    continue
+                if code in (307, 308):
+                    ctx.ok("tables/method-preserved-307-308", Q + f"{agent}._seeOtherResponses | {code}" + f" | {method.decode()}")
+                ok = got_follow == follow and (not follow or got_m == m2) and (follow or (out[0] == "fail" and out[2] == "PageRedirect")) and (not follow or inner.calls[1][3] is None)
+                ctx.check(ok, "method/status-table", q + f" | {code} {method.decode()}",
+                          f"{agent}: {method.decode()} answered with {code}: " + (f"followed as {got_m.decode()}" if got_follow else f"not followed ({out[:3]})") +
+                          f"; expected " + (f"a follow-up {m2.decode()} without body" if follow else "ResponseFailed(PageRedirect)"))
+        inner, out = _run(w, agent, [_Response(200)])
+        ctx.check(out[0] == "ok" and len(inner.calls) == 1, "method/status-table", Q + agent + " | 200", "a non-redirect response is not returned as is")
+        inner, out = _run(w, agent, [_Response(304, b"/x")])
+        ctx.check(out[0] == "ok" and len(inner.calls) == 1, "method/status-table", Q + agent + " | 304", "a 304 response is followed as a redirect")
 
 
 MUTANTS = [
@@ -392,6 +294,7 @@ MUTANTS = [
     Mutant("revert-F27-next-hop-forgets-location", CL, "            self._handleResponse, method, uri, headers, redirectCount + 1, location\n", "            self._handleResponse, method, uri, headers, redirectCount + 1\n"),
     Mutant("next-hop-remembers-request-uri", CL, "            self._handleResponse, method, uri, headers, redirectCount + 1, location\n", "            self._handleResponse, method, uri, headers, redirectCount + 1, requestURI\n"),
     Mutant("limit-zero-falls-back-to-default", CL, "        self._redirectLimit = redirectLimit\n", "        self._redirectLimit = redirectLimit if redirectLimit else 20\n"),
+    Mutant("see-other-hop-forgets-request-uri", CL, "            return self._handleRedirect(\n                response, b\"GET\", uri, headers, redirectCount, requestURI\n            )", "            return self._handleRedirect(\n                response, b\"GET\", uri, headers, redirectCount, None\n            )"),
     Mutant("limit-off-by-one", CL, "        if redirectCount >= self._redirectLimit:", "        if redirectCount > self._redirectLimit:"),
     Mutant("count-not-incremented", CL, "headers, redirectCount + 1, location\n", "headers, redirectCount, location\n"),
     Mutant("origin-check-skipped-for-locations-without-scheme", CL, "        if headers:\n            parsedURI = URI.fromBytes(uri)", "        if headers and locationHeaders[0].find(b\":\") != -1:\n            parsedURI = URI.fromBytes(uri)"),
@@ -416,6 +319,12 @@ MUTANTS = [
            "            return self._handleRedirect(\n                response, method, uri, headers, redirectCount\n            )"),
 ]
 SILENT = [
+    Silent("previous-response-linked-by-module-function", CL, "        def _chainResponse(newResponse):\n            newResponse.setPreviousResponse(response)\n            return newResponse\n\n        deferred.addCallback(_chainResponse)\n",
+           "        deferred.addCallback(lambda newResponse, old: (newResponse.setPreviousResponse(old), newResponse)[1], response)\n"),
+    Silent("response-dispatch-as-guard-clauses", CL, "        elif response.code in self._seeOtherResponses:\n            return self._handleRedirect(\n                response, b\"GET\", uri, headers, redirectCount, requestURI\n            )\n        return response",
+           "        if response.code not in self._seeOtherResponses:\n            return response\n        followWith = b\"GET\"\n        return self._handleRedirect(response, followWith, uri, headers, redirectCount, requestURI)"),
+    Silent("origin-compared-as-tuple-in-helper", CL, "            sameOrigin = (\n                (parsedURI.scheme == parsedLocation.scheme)\n                and (parsedURI.host == parsedLocation.host)\n                and (parsedURI.port == parsedLocation.port)\n            )",
+           "            sameOrigin = not ((parsedURI.scheme, parsedURI.host, parsedURI.port) != (parsedLocation.scheme, parsedLocation.host, parsedLocation.port))"),
     Silent("limit-none-means-default", CL, "        self._redirectLimit = redirectLimit\n", "        self._redirectLimit = 20 if redirectLimit is None else redirectLimit\n"),
     Silent("headers-none-test", CL, "        if headers:\n            parsedURI = URI.fromBytes(uri)", "        if headers is not None and headers:\n            parsedURI = URI.fromBytes(uri)"),
     Silent("same-origin-against-previous-hop-stripped-headers-carried", CL, "            parsedURI = URI.fromBytes(uri)\n            parsedLocation", "            parsedURI = URI.fromBytes(requestURI)\n            parsedLocation"),
